@@ -26,19 +26,12 @@ Print Assumptions C04_specials_only_in_escape_forms.
 
 (* balance half.  Escaped text is inert for the brace machine of Proofs/TokL.v (a backslash consumes the next
    character; braces open and close groups): it never changes the group depth, from any depth. *)
-Require TokL InvL FragL St Loop.
+Require TokL InvL St Loop.
 Theorem C04_escaped_text_is_brace_neutral : forall t d, TokL.runL (enc latex_table t) (TokL.LTxt, d) = (TokL.LTxt, d).
 Proof. exact TokL.latex_escape_textual. Qed.
-(* proved for every document of a sub-language and every world: text lines, .Bm, .Em, .Sm (any arguments) and
-   argument-less .P, LaTeX fragment mode: all brace groups of the output balance, none is closed before it is opened *)
-Theorem C04_fragment_balanced_partial : forall fuel wd main bs, Forall FragL.in_frag bs ->
-  let s := snd (Loop.compile fuel [108; 97; 116; 101; 120] (* the format name: latex *) 0 wd main bs) in
-  St.panicked s = None ->
-  TokL.runL (St.flat (St.wout s)) (TokL.LTxt, 0%nat) = (TokL.LTxt, 0%nat) /\ In (St.curfile s, St.flat (St.wout s)) (St.files s).
-Proof. exact FragL.C04_fragment_balanced. Qed.
-Print Assumptions C04_fragment_balanced_partial.
-
-(* the same with display blocks .Bd/.Ed nested to any depth, for every positive nesting fuel; the compilation is panic-free *)
+(* proved for every document of a sub-language, every world and every positive nesting fuel: text lines, .Bm, .Em, .Sm
+   (any arguments), argument-less .P and display blocks .Bd/.Ed nested to any depth, LaTeX fragment mode: all brace groups
+   of the output balance, none is closed before it is opened, and the compilation is panic-free *)
 Require FragBL.
 Theorem C04_blocks_balanced_partial : forall fuel wd main bs, Forall FragBL.in_frag bs ->
   let s := snd (Loop.compile (S fuel) [108; 97; 116; 101; 120] (* the format name: latex *) 0 wd main bs) in
